@@ -200,7 +200,7 @@ example : (⟨⟨"f8", [2, 4], [1, 2, 3, 4, 5, 6, 7, 8]⟩,
     ⟨.cartesian, .unstructured [⟨"f8", [4], [0, 1, 3, 4]⟩, ⟨"f8", [4], [0, 2, 5, 7]⟩], .null⟩⟩ : Field).values.shape
     = [2] ++ [(Coords.unstructured [⟨"f8", [4], [0, 1, 3, 4]⟩, ⟨"f8", [4], [0, 2, 5, 7]⟩]).size] := by decide
 
-/-- **Dense mode bases through FITS** (after the repair of D30).  For every tensor shape `ts`,
+/-- **Dense mode bases through FITS** (after the repair of D160).  For every tensor shape `ts`,
 number of modes `m` and grid: whenever `write_mode_basis` can write the file, `read_mode_basis`
 returns the basis that was written.  On separated grids the matrix travels as an image with axes
 (mode, tensor…, grid…). -/
@@ -248,13 +248,9 @@ theorem fits_basis_dense_roundtrip (b : ModeBasis) (a : Arr) (g : Grid) (ts : Li
     have := modebasis_dict_roundtrip ⟨.dense ⟨dt, ts ++ [g.coords.size, m], data⟩, some g⟩ g rfl h
     simpa [readBasisFits, ModeBasis.toDict, ModeBasis.isSparse, Except.bind] using this
 
-/-- **Sparse mode bases through FITS** (after the repair of D14).  Whenever the file can be written
-it can be read, the result is sparse and on the same grid; it is either the very same CSC matrix
-(tree path) or the re-sparsified dense image `csc_matrix(c.todense())` (image path).
-`_partial`: that `denseToCsc (cscToDense c)` has the same dense values as `c` for every `c` is
-not proved here (it is checked on every sparse basis of the correspondence run, where the model's
-CSC arrays are compared with SciPy's). -/
-theorem fits_basis_sparse_roundtrip_partial (b : ModeBasis) (c : Csc) (g : Grid) (m : Nat)
+/-- Reading a sparse basis back from FITS gives either the very same CSC matrix (tree path) or
+the re-sparsified dense image `csc_matrix(c.todense())` (image path, after the repair of D14). -/
+theorem fits_basis_sparse_read (b : ModeBasis) (c : Csc) (g : Grid) (m : Nat)
     (htm : b.tm = .sparse c) (hg : b.grid = some g) (h : g.Ok)
     (hshape : c.shape = [g.coords.size, m])
     (file : FitsFile) (hw : writeBasisFits b = .ok file) :
@@ -306,6 +302,33 @@ theorem fits_basis_sparse_roundtrip_partial (b : ModeBasis) (c : Csc) (g : Grid)
     have := modebasis_dict_roundtrip ⟨.sparse c, some g⟩ g rfl h
     simpa [readBasisFits, ModeBasis.toDict, ModeBasis.isSparse, Except.bind] using this
 
+/-- `to_sparse()` followed by `to_dense()` returns the matrix it started from, for every `n × m`
+matrix (explicit zeros are dropped from the CSC structure, never values). -/
+theorem csc_dense_roundtrip (dt : String) (n m : Nat) (d : List Rat) (hd : d.length = n * m) :
+    cscToDense (denseToCsc ⟨dt, [n, m], d⟩) = ⟨dt, [n, m], d⟩ :=
+  cscToDense_denseToCsc dt n m d hd
+
+example : ([1, 0, 3, 4, 5, 0] : List Rat).length = 2 * 3 := by decide
+
+/-- **Sparse mode bases through FITS** (after the repair of D14).  Whenever the file can be written
+it can be read, and the basis read is sparse, on the same grid, with the same matrix values
+(`todense()` equal; on the image path explicit zeros, duplicates and index order of the CSC
+structure are normalised by SciPy, which the property allows). -/
+theorem fits_basis_sparse_roundtrip (b : ModeBasis) (c : Csc) (g : Grid) (m : Nat)
+    (htm : b.tm = .sparse c) (hg : b.grid = some g) (h : g.Ok)
+    (hshape : c.shape = [g.coords.size, m])
+    (file : FitsFile) (hw : writeBasisFits b = .ok file) :
+    ∃ b', readBasisFits file = .ok b' ∧ b'.isSparse = true ∧ b'.grid = b.grid ∧
+      b'.denseArr = b.denseArr := by
+  rcases fits_basis_sparse_read b c g m htm hg h hshape file hw with hr | hr
+  · exact ⟨b, hr, by simp [ModeBasis.isSparse, htm], rfl, rfl⟩
+  · refine ⟨_, hr, rfl, hg.symm, ?_⟩
+    obtain ⟨hs, hl⟩ := cscToDense_shape c _ _ hshape
+    have heta : cscToDense c = ⟨(cscToDense c).dtype, [g.coords.size, m], (cscToDense c).data⟩ := by
+      rw [← hs]
+    simp only [ModeBasis.denseArr, htm]
+    rw [heta, cscToDense_denseToCsc _ _ _ _ hl]
+
 /-! ### the unrepaired read/write paths and their counterexamples -/
 
 def exGridU : Grid :=
@@ -324,7 +347,7 @@ theorem fits_field_old_counterexample :
     ((writeFieldFits exTensor).bind readFieldFitsOld).map (·.values.shape) = .ok [3, 4] := by
   constructor <;> rfl
 
-/-- D30: on the unrepaired tree a (2, N, M) tensor mode basis on a regular grid comes back as an
+/-- D160: on the unrepaired tree a (2, N, M) tensor mode basis on a regular grid comes back as an
 (N, 2·M) matrix. -/
 theorem fits_basis_old_counterexample_tensor :
     ((writeBasisFitsOld exTensorBasis).bind readBasisFitsOld).map (·.denseArr.shape) = .ok [2, 6] := by
